@@ -20,7 +20,7 @@ from mc import seams
 from mc.core import Explorer, violation
 
 LEVEL = "model_checking"
-ASSUMPTIONS = ["histories of depth <= 3 (quick) / 4 (thorough) over an alphabet of ~10 public calls; data sets X1 (5x2) and X2 (7x3)"]
+ASSUMPTIONS = ["histories of depth <= 2 (quick) / 4 (thorough) over an alphabet of ~10 public calls; data sets X1 (5x2) and X2 (7x3)"]
 
 SPECS = {
     "LinearModel": [{}, {"gemini": "wasserstein_ova", "batch_size": 2}], "LinearMMD": [{"kernel": "rbf_g"}, {"kernel": "pre_psd"}],
